@@ -35,6 +35,24 @@ def rechunk(case, mode, rng):
     return {'acts': case.get('acts', {}), 'debug': bool(case.get('debug')), 'ops': new_ops, 'tls': new_tls}
 
 
+def rechunk_pieces(case, piece):
+    """same session, the server's bytes in pieces of a fixed size"""
+    new_ops, new_tls = [], {}
+    for i, op in enumerate(case['ops']):
+        if op[0] != 'bytes':
+            new_ops.append(op)
+            continue
+        data, lines = op[1], list(case['tls'].get(i, []))
+        for j in range(0, len(data), piece):
+            part = data[j:j + piece]
+            n = part.count('\n')
+            new_tls[len(new_ops)] = lines[:n]
+            lines = lines[n:]
+            new_ops.append(['bytes', part])
+        assert not lines
+    return {'acts': case.get('acts', {}), 'debug': bool(case.get('debug')), 'ops': new_ops, 'tls': new_tls}
+
+
 def to_json_case(case):
     out = {'acts': case.get('acts', {}), 'debug': bool(case.get('debug')), 'ops': case['ops'], 'tls': {str(k): v for k, v in case['tls'].items()}}
     if case.get('raw'):
